@@ -265,6 +265,14 @@ Proof.
       * discriminate.
 Qed.
 
+Lemma preach_prun fixed nw cap work : forall l p p',
+  preach fixed nw cap work p -> prun fixed nw cap work p l = Some p' -> preach fixed nw cap work p'.
+Proof.
+  induction l as [|a l IH]; cbn; intros p p' R H.
+  - now inversion H; subst.
+  - destruct (pstep fixed nw cap work p a) eqn:S; [|discriminate]. eapply IH; [|exact H]. econstructor; eauto.
+Qed.
+
 (* ---- the statements used by Props.v ---- *)
 
 Lemma distributor_never_blocks_lemma : forall nw cap work p,
